@@ -472,7 +472,15 @@ func genConfig(seed int64, index int, prologue string) *Config {
 		if structure == 0 && b.limit() < decided {
 			structure = 1
 		}
+		if fw.Rand(seed, "c01structure", index).Intn(5) == 0 {
+			structure = 3
+		}
 		switch structure {
+		case 3:
+			// the wrapping handler runs inside a (non-terminal) subroute and the consuming chain follows the subroute in the
+			// outer route: the connection as the subroute's handlers left it is the one that goes on
+			b.shape = append(b.shape, "in-subroute-then-chain")
+			rs = []any{map[string]any{"handle": append([]any{map[string]any{"handler": "subroute", "matching_timeout": "30s", "routes": []any{pr}}}, b.chain(0, true)...)}}
 		case 0:
 			// further top-level routes on the wrapped connection; they can only answer
 			// "more" while the prologue route is still undecided
